@@ -22,7 +22,7 @@
 
    Variant = "intended" is the model; Variant = "shallowMerge" is a wrong merge kept only to show
    that the merge invariants below are not vacuous (the model must reject it).               *)
-EXTENDS Integers, Sequences, FiniteSets, TLC, Json
+EXTENDS Integers, Sequences, FiniteSets, TLC, Json, Randomization
 
 CONSTANTS KeySeq,     \* all member names, in bytewise order  (e.g. <<"a", "a/b", "b">>)
           PathKeys,   \* the names usable as path components (no '/' inside)
@@ -206,4 +206,17 @@ MergeRightWins ==
 View == doc
 DepthBound == Depth(doc) <= MaxDepth
 Emit == Len(hist) < MaxHist \/ (PrintT(<<"B", ToJson(hist)>>) /\ FALSE)
+\* simulation runs: a behaviour is printed once, by a final stuttering step (with the constraint
+\* above TLC would print every candidate successor of the last state, and stop at the first trace)
+\* one random operation per step (enumerating every successor of every state is too slow here)
+RandStep ==
+  \E n \in RandomSubset(1, 1..6), p \in RandomSubset(1, Paths), pe \in RandomSubset(1, Paths \cup {E}),
+     x \in RandomSubset(1, WriteVals), key \in RandomSubset(1, SetKeys), m \in RandomSubset(1, MergeVals) :
+    IF n <= 2 THEN SetPath(p, x)
+    ELSE IF n = 3 THEN Remove(p)
+    ELSE IF n = 4 THEN SetKey(IF HasP(doc, pe) THEN pe ELSE E, key, x)
+    ELSE Merge(pe, m)
+SimNext == \/ Len(hist) < MaxHist /\ RandStep
+           \/ Len(hist) = MaxHist /\ PrintT(<<"B", ToJson(hist)>>) /\ UNCHANGED vars
+SimSpec == Init /\ [][SimNext]_vars
 =============================================================================
